@@ -19,6 +19,11 @@ def mk_ops(draw, specs, slot):
     names = [c['name'] for c in spec['classes']]
     order = list(draw(st.permutations(names)))
     op = {'op': 'mk', 'slot': slot, 'kind': kind, 'spec': spec['uid'], 'order': order}
+    if len(names) > 1 and draw(st.integers(0, 2)) == 0:
+        # a function over a subset of the same classes (load_function(Shape) next
+        # to load_function(Shape, Circle))
+        k = draw(st.integers(1, len(names) - 1))
+        op['only'] = sorted(draw(st.permutations(names))[:k])
     if kind == 'load':
         roots = plans.root_types(spec)
         if draw(st.integers(0, 7)) == 0:
@@ -159,6 +164,24 @@ def world_plans(draw, tier):
     specs = [draw(plans.specs('s{}'.format(i), max_classes=4)) for i in range(nspecs)]
     nfn = draw(st.integers(1, 4))
     setup = [draw(mk_ops(specs, slot)) for slot in range(nfn)]
+    if draw(st.integers(0, 2)) == 0:
+        # a sibling of an existing function over a smaller set of the same classes
+        # (load_function(Shape) next to load_function(Shape, Circle)), preferably
+        # without a derived class
+        proto = draw(st.sampled_from(setup))
+        spec = _spec(specs, proto['spec'])
+        names = [c['name'] for c in spec['classes']]
+        derived = [c['name'] for c in spec['classes'] if c.get('base')]
+        if len(names) > 1:
+            drop = draw(st.sampled_from(derived * 3 + names))
+            sib = dict(proto, slot=len(setup), only=sorted(n for n in names if n != drop))
+            if draw(st.booleans()):
+                setup.append(sib)
+            else:
+                sib['slot'] = proto['slot']
+                proto['slot'] = len(setup)
+                setup = [sib if m is proto else m for m in setup] + [proto]
+                setup.sort(key=lambda m: m['slot'])
     shared = {}
     for j in range(draw(st.integers(0, 2))):
         dmk = [m for m in setup if m['op'] == 'mk' and m['kind'] != 'load']
@@ -172,7 +195,7 @@ def world_plans(draw, tier):
     if tier == 'thorough' and K == 1:
         max_ops = 14
     threads = []
-    next_slot = nfn
+    next_slot = max(m['slot'] for m in setup if m['op'] == 'mk') + 1
     for t in range(K):
         n = draw(st.integers(1, max_ops))
         mine = [m for m in setup if m['op'] == 'mk']
